@@ -163,9 +163,9 @@ func cmdCheck(args []string) int {
 			units = append(units, &unit{kind: "lemma", lm: p.Specs.Lemmas[n]})
 		}
 	}
-	timeout := 10
+	timeout := 30 // quick tier: obligations normally discharge in well under 10 s; the margin absorbs a loaded machine
 	if tier == "thorough" {
-		timeout = 60
+		timeout = 120
 	}
 	tExec := time.Now()
 	var all []*Obligation
